@@ -318,6 +318,17 @@ class Types:
                 return self.note(ct, self.cfg.get('type_kinds', {}).get(ct, 'handle'))
         if t in SCALARS:
             return self.note(SCALARS[t], 'scalar')
+        for suf in ('::iterator', '::const_iterator'):
+            if t.endswith(suf) and t[:-len(suf)].endswith('>'):
+                base = self.ctype(t[:-len(suf)])
+                e = self.elem.get(base)
+                if base.startswith('vec_'):
+                    return self.note('vecit_' + sanitize(e), 'value', e)
+                if base.startswith('deq_'):
+                    return self.note('deqit_' + sanitize(e), 'value', e)
+                if base.startswith('umap_') or base.startswith('uset_'):
+                    return self.note('mapit_' + base, 'value', e)
+                raise Unsupported('iterator of %r' % base)
         if t.endswith('*'):
             inner = self.ctype(t[:-1])
             if self.kind(inner) == 'handle':
@@ -356,7 +367,10 @@ class Types:
             e = self.ctype(args[0])
             return self.note('deq_' + sanitize(e), 'value', e)
         if name == 'std::reference_wrapper':
-            return self.ctype(args[0])
+            e = self.ctype(args[0])
+            if self.kind(e) == 'value' and not e.endswith('*'):
+                return e + ' *'      # a reference to a value object: aliasing is kept
+            return e
         if name == 'std::unique_ptr' or name == 'std::shared_ptr':
             e = self.ctype(args[0])
             return self.note('uptr_' + sanitize(e), 'handle', e)
@@ -526,7 +540,43 @@ class FnEmitter:
     e_SubstNonTypeTemplateParmExpr = e_ExprWithCleanups
 
     def e_CXXRewrittenBinaryOperator(self, n):
-        # C++20 rewritten comparison: the child is the semantic form (e.g. !(a == b))
+        # C++20 rewritten comparison: the child is the semantic form, e.g. !(a == b) or
+        # (a <=> b) < 0.  The latter is emitted as the relational operator on a and b.
+        inner = self.strip(kids(n)[0])
+        if inner.get('kind') in ('CXXOperatorCallExpr', 'BinaryOperator'):
+            ks = kids(inner)
+            if inner['kind'] == 'CXXOperatorCallExpr':
+                cal = self.strip(ks[0])
+                while cal.get('kind') == 'ImplicitCastExpr':
+                    cal = self.strip(kids(cal)[0])
+                opn = cal.get('referencedDecl', {}).get('name', '')[len('operator'):].strip()
+                operands = ks[1:]
+            else:
+                opn = inner.get('opcode')
+                operands = ks
+            if opn in ('<', '>', '<=', '>=') and len(operands) == 2:
+                lhs, rhs = self.strip(operands[0]), self.strip(operands[1])
+                sw = None
+                if lhs.get('kind') == 'CXXOperatorCallExpr':
+                    sw = (lhs, False)
+                elif rhs.get('kind') == 'CXXOperatorCallExpr':
+                    sw = (rhs, True)      # 0 < (b <=> a)
+                if sw:
+                    sk = kids(sw[0])
+                    scal = self.strip(sk[0])
+                    while scal.get('kind') == 'ImplicitCastExpr':
+                        scal = self.strip(kids(scal)[0])
+                    if scal.get('referencedDecl', {}).get('name') == 'operator<=>':
+                        a, b = sk[1], sk[2]
+                        if sw[1]:
+                            opn = {'<': '>', '>': '<', '<=': '>=', '>=': '<='}[opn]
+                        cta, ctb = self.ct(a), self.ct(b)
+                        if self.ty.kind(cta) == 'scalar' and self.ty.kind(ctb) == 'scalar':
+                            return '(%s %s %s)' % (self.expr(a), opn, self.expr(b))
+                        cn = '%s__op_%s' % (sanitize(cta), OPNAMES[opn])
+                        if ctb != cta:
+                            cn += '__' + sanitize(ctb)
+                        return '%s(%s, %s)' % (cn, self.expr(a), self.expr(b))
         return self.expr(kids(n)[0])
 
     def e_ParenExpr(self, n):
@@ -594,6 +644,15 @@ class FnEmitter:
             self.u.note_self_field(self, name, n)
             return 'self->%s' % sanitize(name)
         be = self.expr(base)
+        if n.get('isArrow') and b.get('kind') == 'CXXOperatorCallExpr':
+            cal = self.strip(kids(b)[0])
+            while cal.get('kind') == 'ImplicitCastExpr':
+                cal = self.strip(kids(cal)[0])
+            if cal.get('referencedDecl', {}).get('name') == 'operator->':
+                pct = bct[:-2] if bct.endswith(' *') else bct
+                if self.ty.kind(pct) == 'handle':
+                    return '%s__get_%s(%s)' % (pct, sanitize(name), be)
+                return '%s.%s' % (be, sanitize(name))
         if bct.endswith(' *'):
             return '%s->%s' % (be, sanitize(name))
         if n.get('isArrow'):
@@ -797,6 +856,8 @@ class FnEmitter:
         ot = obj.get('type', {})
         if 'reference_wrapper' in (ot.get('desugaredQualType') or ot.get('qualType') or '') and (
                 mname == 'get' or mname.startswith('operator ')):
+            if self.ct(obj).endswith(' *'):
+                return '(*%s)' % self.expr(obj)
             return self.expr(obj)
         rid = cal.get('referencedMemberDecl')
         inlined = self.u.try_inline_method(self, rid, obj, args, n)
@@ -817,7 +878,19 @@ class FnEmitter:
         cn = self.callee_name(ref, octn, arg_cts)
         al = [oe] + [self.call_arg(a, ref, i) for i, a in enumerate(args)
                      if a.get('kind') != 'CXXDefaultArgExpr']
-        return '%s(%s)' % (cn, ', '.join(al))
+        return self.ref_result(n, rid, '%s(%s)' % (cn, ', '.join(al)))
+
+    def ref_result(self, n, rid, call):
+        """An oomd function returning `T&` of a value-kind T is a C function returning `T *`
+        (the reference is kept as a reference, so aliasing is modelled)."""
+        if n.get('valueCategory') == 'lvalue' and rid in self.idx.qname:
+            try:
+                ct = self.ct(n)
+            except Unsupported:
+                return call
+            if self.ty.kind(ct) == 'value' and not ct.endswith('*'):
+                return '(*%s)' % call
+        return call
 
     def call_arg(self, a, ref, i):
         # by-reference out parameter of scalar/value type -> pass address
@@ -852,8 +925,8 @@ class FnEmitter:
                     cn += '__' + sanitize(rct)
                 if name in ARG_TYPED and arg_cts:
                     cn += '__' + '_'.join(sanitize(a) for a in arg_cts)
-            al = [self.call_arg(a, ref, i) for i, a in enumerate(args)]
-            return '%s(%s)' % (cn, ', '.join(al))
+            al = [self.call_arg(a, ref, i) for i, a in enumerate(args) if a.get('kind') != 'CXXDefaultArgExpr']
+            return self.ref_result(n, ref.get('id'), '%s(%s)' % (cn, ', '.join(al)))
         if callee.get('kind') == 'MemberExpr':
             # static member function called through object, or function pointer member
             self.unsupported(n, 'call through member')
@@ -910,7 +983,7 @@ class FnEmitter:
 
     def e_CXXConstructExpr(self, n):
         ct = self.ct(n)
-        args = kids(n)
+        args = [a for a in kids(n) if a.get('kind') != 'CXXDefaultArgExpr']
         if is_log_type(n.get('type')):
             return self.log_expr(n)
         k = self.ty.kind(ct)
@@ -918,12 +991,21 @@ class FnEmitter:
             if k == 'scalar':
                 return '((%s)0)' % ct
             return '%s__ctor0()' % sanitize(ct)
+        nt = n.get('type', {})
+        if 'reference_wrapper' in ((nt.get('desugaredQualType') or '') + (nt.get('qualType') or '')) \
+                and ct.endswith(' *') and len(args) == 1:
+            if self.ct(args[0]) == ct:
+                return self.expr(args[0])
+            return '(&%s)' % self.expr(args[0])
         if len(args) == 1:
             act = self.ct(args[0])
             if act == ct:
                 return self.expr(args[0])      # copy / move construction
-            if ct == 'str_t' and self.strip(args[0]).get('kind') == 'StringLiteral':
-                return self.expr(args[0])
+            a0 = self.strip(args[0])
+            while a0.get('kind') == 'ImplicitCastExpr' and a0.get('castKind') in ('ArrayToPointerDecay', 'NoOp'):
+                a0 = self.strip(kids(a0)[0])
+            if ct == 'str_t' and a0.get('kind') == 'StringLiteral':
+                return self.expr(a0)
         acts = [self.ct(a) for a in args]
         return '%s__from__%s(%s)' % (sanitize(ct), '_'.join(sanitize(a) for a in acts),
                                      ', '.join(self.expr(a) for a in args))
@@ -1143,6 +1225,8 @@ class FnEmitter:
         active = [g for g in self.guards]
         if ks:
             e = self.expr(ks[0])
+            if getattr(self, 'ret_by_ref', False):
+                e = '(&%s)' % e
             if active or self.try_stack:
                 self.w('{ __ret = %s;' % e)
                 self.ind += 1
@@ -1368,10 +1452,12 @@ class FnEmitter:
             self.ret_ct = 'void'
         else:
             rt_node = {'qualType': rt}
-            try:
-                self.ret_ct = self.ty.ctype(self.u.desugar_ret(fn, rt))
-            except Unsupported:
-                raise
+            self.ret_ct = self.ty.ctype(self.u.desugar_ret(fn, rt))
+            self.ret_by_ref = False
+            if rt.rstrip().endswith('&') and not rt.rstrip().endswith('&&') and \
+                    self.ty.kind(self.ret_ct) == 'value' and not self.ret_ct.endswith('*'):
+                self.ret_ct = self.ret_ct + ' *'
+                self.ret_by_ref = True
         ps = []
         is_method = fn['kind'] in ('CXXMethodDecl', 'CXXConstructorDecl', 'CXXDestructorDecl') \
             and fn.get('storageClass') != 'static'
@@ -1566,6 +1652,8 @@ class Unit:
                 self.types.value_structs.add(cls)
 
     def strlit(self, text):
+        if text == '':
+            return 'STR_EMPTY'
         if text not in self.strlits:
             self.strlits[text] = 'STRLIT_%d' % len(self.strlits)
         return self.strlits[text]
@@ -1731,6 +1819,16 @@ class Unit:
             raise Unsupported('function %s is ambiguous (%d bodies)' % (qname, len(cands)))
         return cands[0]
 
+    def def_cname(self, q):
+        short = q[len('Oomd::'):] if q.startswith('Oomd::') else q
+        if short.startswith('Engine::'):
+            short = short[len('Engine::'):]
+        parts = short.split('::')
+        base = '_'.join(sanitize(p) for p in parts[:-1])
+        em = FnEmitter(self, {'kind': 'none'}, q, '', self.cfg)
+        nm = em.opname(parts[-1], 2)
+        return (base + '__' + nm) if base else nm
+
     def source_range(self, fn):
         r = fn.get('range', {})
         b = r.get('begin', {})
@@ -1747,7 +1845,7 @@ class Unit:
         for f in self.cfg['functions']:
             q = f['qname']
             fn = self.find_function(q, f.get('pick'))
-            cname = f.get('cname') or sanitize(q.replace('Oomd::', '').replace('Engine::', '').replace('::', '_'))
+            cname = f.get('cname') or self.def_cname(q)
             em = FnEmitter(self, fn, q, cname, self.cfg)
             sig, lines = em.emit_function()
             bo, eo = self.source_range(fn)
